@@ -5,43 +5,24 @@ From PV Require Import Heap Values ValuesProofs.
 Import ListNotations.
 Open Scope nat_scope.
 
-(* Full statement: for EVERY object store (template objects shared at will), every root circuit of any hierarchy
-   depth d whose unfolding exists, and EVERY finite history of update_var (scalar / array values, wildcard patterns),
-   edge-attribute updates and compilations with apply(node_values), the outputs of the implementation model (deepcopy,
-   write, re-register into the circuit object found on the path) are the outputs of the specification (functional
-   update of the addressed paths of the unshared tree, nothing else). *)
+(* Full statement: for EVERY object store (OperatorTemplate, NodeTemplate and CircuitTemplate objects shared at will), every
+   root circuit of any hierarchy depth d whose unfolding exists, and EVERY finite history of update_var (scalar / array
+   values, wildcard patterns), edge-attribute updates and compilations with apply(node_values), the outputs of the
+   implementation model (deepcopy of the node template, write, deepcopy of every sub-circuit on the path and
+   re-registration — the mechanism after fix D47) are the outputs of the specification (functional update of the
+   addressed paths of the unshared tree, nothing else). *)
 Definition C07_full_statement : Prop := forall d r ops h t, abs d h r = Some t ->
   snd (runI d r h ops) = snd (runS d t ops).
 
-(* It holds when no CircuitTemplate object is reachable along two paths (NodeTemplate and OperatorTemplate objects may be
-   shared freely), together with the simulation of the states. *)
-Theorem C07_partial : forall d r ops h t, abs d h r = Some t -> no_shared_subcircuit t = true ->
-  abs d (fst (runI d r h ops)) r = Some (fst (runS d t ops)) /\ snd (runI d r h ops) = snd (runS d t ops).
-Proof. exact history_refines_guard. Qed.
-Print Assumptions C07_partial.
+Theorem C07_full : C07_full_statement.
+Proof. exact history_outputs. Qed.
+Print Assumptions C07_full.
 
-Theorem C07_refines_NoDup : forall d r ops h t, abs d h r = Some t -> NoDup (circ_ids t) ->
+(* together with the simulation of the states *)
+Theorem C07_refines : forall d r ops h t, abs d h r = Some t ->
   abs d (fst (runI d r h ops)) r = Some (fst (runS d t ops)) /\ snd (runI d r h ops) = snd (runS d t ops).
 Proof. exact history_refines. Qed.
-Print Assumptions C07_refines_NoDup.
-
-(* D27: two names for one sub-circuit object; update_var('c1/A/op/k', 5) also changes c2/A/op/k (1/2 expected) *)
-Definition d27_heap : heap :=
-  [OOp "op" ["d/dt * x = k*r + g + u"%string]
-       [("x"%string, Sc (mkq 1 4)); ("k"%string, Sc (mkq 1 2)); ("r"%string, Sc (mkq 2 1)); ("g"%string, Sc (mkq 1 1)); ("u"%string, Sc (mkq 0 1))];
-   ONode [(0, [])];
-   OCirc [("A"%string, 1); ("B"%string, 1)] [("A/op/x"%string, "B/op/u"%string, [("weight"%string, Sc (mkq 2 1))])];
-   OCirc [("c1"%string, 2); ("c2"%string, 2)] [("c1/A/op/x"%string, "c2/B/op/u"%string, [("weight"%string, Sc (mkq 1 2))])]].
-Definition d27_ops : list hop := [UpdVar ["c1"%string; "A"%string] "op" "k" (Sc (mkq 5 1)); Observe []].
-
-Theorem C07_shared_subcircuit_refuted : ~ C07_full_statement.
-Proof.
-  intros H. destruct (abs 1 d27_heap 3) as [t|] eqn:E; [|vm_compute in E; discriminate].
-  specialize (H 1 3 d27_ops d27_heap t E).
-  apply (f_equal (probe (["c2"%string; "A"%string], "op"%string, "k"%string))) in H.
-  vm_compute in E. injection E as <-. vm_compute in H. discriminate.
-Qed.
-Print Assumptions C07_shared_subcircuit_refuted.
+Print Assumptions C07_refines.
 
 (* what the specification does: a functional update at node path n is read back at n and nowhere else *)
 Theorem C07_frame : forall n t a t' m, tset_node t n a = Some t' ->
@@ -49,24 +30,55 @@ Theorem C07_frame : forall n t a t' m, tset_node t n a = Some t' ->
 Proof. exact tget_tset. Qed.
 Print Assumptions C07_frame.
 
-(* the mechanism: deepcopy of a node template yields a fresh object with the same content ... *)
+(* the mechanism: deepcopy of a node template yields a fresh object with the same content, *)
 Theorem C07_deepcopy_fresh : forall h nid a, node_den h nid = Some a ->
   exists h1 nid', copy_node h nid = Some (h1, nid') /\ extends h h1 /\ lookup h nid' = None /\ node_den h1 nid' = Some a.
 Proof. exact copy_node_spec. Qed.
 Print Assumptions C07_deepcopy_fresh.
 
-(* ... and re-registering it writes one path of the tree, provided the circuit objects on the path are not shared *)
+(* deepcopy of a sub-circuit (memo dictionary: sharing inside the copy is preserved) yields fresh objects with the same
+   denotation, none of which is an object that existed before, *)
+Theorem C07_deepcopy_circuit_fresh : forall d h x t, abs d h x = Some t ->
+  exists h1 m x', copy_circ d h [] x = Some (h1, m, x') /\ extends h h1 /\ List.length h <= x' /\
+                  abs d h1 x' = Some t /\ suffix_closed h h1.
+Proof. exact copy_circ_fresh. Qed.
+Print Assumptions C07_deepcopy_circuit_fresh.
+
+(* a circuit object is never below itself, *)
+Theorem C07_acyclic : forall d h c t, abs d h c = Some t -> ~ In c (below d h c).
+Proof. exact acyclic. Qed.
+Print Assumptions C07_acyclic.
+
+(* and re-registering a node template writes exactly one path of the tree; of the objects that existed before, only the
+   circuit object it was called on is changed *)
 Theorem C07_add_node_template : forall d h c t n nid a,
-  abs d h c = Some t -> NoDup (circ_ids t) -> node_den h nid = Some a ->
+  abs d h c = Some t -> node_den h nid = Some a ->
   match add_node_template d h c n nid with
-  | Some h' => exists t', tset_node t n a = Some t' /\ abs d h' c = Some t' /\ circ_ids t' = circ_ids t /\
-                          (forall i ob, lookup h i = Some ob -> ~ In i (circ_ids t) -> lookup h' i = Some ob)
+  | Some h' => exists t', tset_node t n a = Some t' /\ abs d h' c = Some t' /\
+                          (forall i ob, lookup h i = Some ob -> i <> c -> lookup h' i = Some ob)
   | None => tset_node t n a = None
   end.
 Proof. exact add_node_template_equiv. Qed.
 Print Assumptions C07_add_node_template.
 
-(* non-vacuity: A and B hold the SAME NodeTemplate object (and one OperatorTemplate object); the guard holds;
+(* regression witness of D27 (repaired by D47): c1 and c2 are two names of ONE sub-circuit object;
+   update_var('c1/A/op/k', 5) sets c1/A/op/k = 5 and leaves c2/A/op/k = 1/2 *)
+Definition d27_heap : heap :=
+  [OOp "op" ["d/dt * x = k*r + g + u"%string]
+       [("x"%string, Sc (mkq 1 4)); ("k"%string, Sc (mkq 1 2)); ("r"%string, Sc (mkq 2 1)); ("g"%string, Sc (mkq 1 1)); ("u"%string, Sc (mkq 0 1))];
+   ONode [(0, [])];
+   OCirc [("A"%string, 1); ("B"%string, 1)] [("A/op/x"%string, "B/op/u"%string, [("weight"%string, Sc (mkq 2 1))])];
+   OCirc [("c1"%string, 2); ("c2"%string, 2)] [("c1/A/op/x"%string, "c2/B/op/u"%string, [("weight"%string, Sc (mkq 1 2))])]].
+Definition d27_ops : list hop := [UpdVar ["c1"%string; "A"%string] "op" "k" (Sc (mkq 5 1)); Observe []].
+Example C07_shared_subcircuit_regression :
+  let outs := snd (runI 1 3 d27_heap d27_ops) in
+  probe (["c1"%string; "A"%string], "op"%string, "k"%string) outs = 5%Z /\
+  probe (["c2"%string; "A"%string], "op"%string, "k"%string) outs = 1%Z /\
+  probe (["c1"%string; "B"%string], "op"%string, "k"%string) outs = 1%Z.
+Proof. vm_compute. auto. Qed.
+Print Assumptions C07_shared_subcircuit_regression.
+
+(* non-vacuity: A and B hold the SAME NodeTemplate object (and one OperatorTemplate object);
    update_var('A/op/k', 5) then a per-node array on all/op/x: A.k = 5, B.k stays 1/2, x = 1, 2 in path order *)
 Definition nv_heap : heap :=
   [OOp "op" ["d/dt * x = k*r + g + u"%string]
@@ -76,9 +88,9 @@ Definition nv_heap : heap :=
 Definition nv_ops : list hop :=
   [UpdVar ["A"%string] "op" "k" (Sc (mkq 5 1)); UpdVar ["all"%string] "op" "x" (Arr [mkq 1 1; mkq 2 1]); Observe []].
 Example C07_nonvacuous :
-  (exists t, abs 0 nv_heap 2 = Some t /\ no_shared_subcircuit t = true) /\
+  (exists t, abs 0 nv_heap 2 = Some t) /\
   let outs := snd (runI 0 2 nv_heap nv_ops) in
   probe (["A"%string], "op"%string, "k"%string) outs = 5%Z /\ probe (["B"%string], "op"%string, "k"%string) outs = 1%Z /\
   probe (["A"%string], "op"%string, "x"%string) outs = 1%Z /\ probe (["B"%string], "op"%string, "x"%string) outs = 2%Z.
-Proof. split; [eexists; split; vm_compute; reflexivity | vm_compute; auto]. Qed.
+Proof. split; [eexists; vm_compute; reflexivity | vm_compute; auto]. Qed.
 Print Assumptions C07_nonvacuous.
